@@ -441,7 +441,13 @@ func (f *Frame) enterLoop(li *loopInfo, cur *State) {
 		}
 	}
 	li.phiVal = map[*ssa.Phi]*Val{}
-	for phi := range entryVals {
+	// in instruction order: the numbering of the constants must not depend on map iteration (solver
+	// run times vary by an order of magnitude with the names)
+	for _, ins := range h.Instrs {
+		phi, ok := ins.(*ssa.Phi)
+		if !ok || entryVals[phi] == nil {
+			continue
+		}
 		nv := &Val{T: c.freshConst(sanitize(f.prefix)+"."+phi.Name()+"@loop", c.sortOf(phi.Type())), Typ: phi.Type(), ConstLen: -1}
 		li.phiVal[phi] = nv
 		e.assumeTypeInv(cur, nv.T, phi.Type(), guard)
@@ -571,7 +577,10 @@ func (f *Frame) backEdge(li *loopInfo, from *ssa.BasicBlock, cur *State) {
 func (f *Frame) loopModSet(li *loopInfo) *modSet {
 	ms := &modSet{heaps: map[string]string{}, nonLocal: map[string]bool{}, body: li.body, topFn: f.fn}
 	seen := map[*ssa.Function]bool{}
-	for b := range li.body {
+	for _, b := range f.fn.Blocks { // block order, not map order: heap and type numbering follow first use
+		if !li.body[b] {
+			continue
+		}
 		for _, ins := range b.Instrs {
 			f.scanMods(ins, ms, seen, f.depth)
 		}
